@@ -207,9 +207,10 @@ Definition kinit (n : nat) : ks :=
      maintf := fun t => if (0 <? t) && (t <? n) then Some t else None;
      oldf := fun _ => None; inmaint := fun _ => false; born := fun _ => None |}.
 
+(* reachable states: any sequence of enabled events of the n kernel threads *)
 Inductive kreach (n : nat) : ks -> Prop :=
 | kr_init : kreach n (kinit n)
-| kr_step s l s' : kreach n s -> kstep s l = Some s' -> kreach n s'.
+| kr_step s l s' : kreach n s -> thread_of l < n -> kstep s l = Some s' -> kreach n s'.
 
 (* ---- acceptor over an event sequence: index of the first rejected label ---- *)
 Fixpoint accept (s : ks) (ls : list label) (i : nat) : option nat * ks :=
